@@ -45,6 +45,7 @@ type Case struct {
 	Group    []*Case  // further schema files passed to the SAME generator invocation (same package); each has its own root type and documents
 	Classes  docgen.Classes // mutation classes for this case's automatic documents (nil: the check's own)
 	AllOwn   bool           // every document of this case counts, whatever classes the check owns
+	Defaults bool           // assert default application for this case even where the check as a whole does not
 
 	prog *batch.Program
 	idx  int
@@ -678,7 +679,7 @@ func decide(cfg *Config, rep *Report, ks *known.Set, p pending, res *batch.Res) 
 			addViolation(cfg, rep, mkViolation(p, "value", "marshal ok", "marshal failed", res.OutErr+" "+res.Out))
 			return
 		}
-		oo := model.OutOpts{SkipDefaults: !cfg.Defaults, SkipAddProps: !cfg.AddProps}
+		oo := model.OutOpts{SkipDefaults: !(cfg.Defaults || p.c.Defaults), SkipAddProps: !cfg.AddProps}
 		diffs := model.CompareOut(p.root, p.doc.V, out, oo)
 		if len(diffs) > 0 {
 			if p.c.Witness != "" && ks.Has(p.c.Witness) {
